@@ -94,6 +94,8 @@ class _IntMeta(type):
     def __subclasscheck__(cls, x): return issubclass(x, builtins.int)
 class shim_int(metaclass = _IntMeta):
     def __new__(cls, x = 0, *a):
+        from .symstr import SymStr
+        if isinstance(x, SymStr): return x.as_int()
         if isinstance(x, str):
             s = x.strip(); neg = s.startswith('-'); k = s.lstrip('+-')
             if k in TEMPLATES:
